@@ -219,7 +219,7 @@ Proof.
   unfold starts_with_space. rewrite curr_byte_opt_st by exact HW.
   rewrite Hwsp. cbv zeta.
   change (w :: ws ++ ?l) with ((w :: ws) ++ l) in HW |- *.
-  rewrite skip_spaces_st; [|exact Hascii|exact HW|apply ws_spaces; exact Hws|rewrite En; cbn [app stops]; exact Hnsp].
+  rewrite skip_spaces_st; [|exact HW|apply ws_spaces; exact Hws|rewrite En; cbn [app stops]; exact Hnsp].
   pose proof (W_app _ _ _ _ HW) as HW1. cbn [CstLex.st s_pos].
   assert (Ecb : curr_byte (st (q + blen (w :: ws)) (r_qname qn ++ ws1 ++ 61 :: ws2 ++ quote :: value ++ quote :: more)) = Ok n).
   { revert HW1. rewrite En. cbn [app]. intros HW1. apply curr_byte_st. exact HW1. }
@@ -228,11 +228,11 @@ Proof.
   2:{ apply ws_stop_name; [exact Hw1|]. cbn [name_stop]. apply not_name_byte_lit. auto. }
   cbn [bind]. pose proof (W_app _ _ _ _ HW1) as HW2.
   unfold consume_eq.
-  rewrite skip_spaces_st; [|exact Hascii|exact HW2|apply ws_spaces; exact Hw1|reflexivity].
+  rewrite skip_spaces_st; [|exact HW2|apply ws_spaces; exact Hw1|reflexivity].
   pose proof (W_app _ _ _ _ HW2) as HW3.
   rewrite consume_byte_st by (try exact Hascii; exact HW3). cbn [bind].
   pose proof (W_cons _ _ _ _ HW3) as HW4.
-  rewrite skip_spaces_st; [|exact Hascii|exact HW4|apply ws_spaces; exact Hw2|cbn [stops]; exact Hqsp].
+  rewrite skip_spaces_st; [|exact HW4|apply ws_spaces; exact Hw2|cbn [stops]; exact Hqsp].
   pose proof (W_app _ _ _ _ HW4) as HW5. cbn [CstLex.st s_pos].
   try match goal with |- context [ {| s_pos := ?a; s_end := tlen text; s_rest := ?r |} ] => fold (st a r) end.
   unfold consume_quote. rewrite curr_byte_st by exact HW5. cbn [bind].
@@ -337,7 +337,7 @@ Proof.
   rewrite consume_qname_ns; [|exact HW1|exact Hn|].
   2:{ apply ws_stop_name; [exact Hws|]. cbn [app name_stop]. apply not_name_byte_lit. auto. }
   cbn [bind]. pose proof (W_app _ _ _ _ HW1) as HW2.
-  rewrite skip_spaces_st; [|exact Hascii|exact HW2|apply ws_spaces; exact Hws|reflexivity].
+  rewrite skip_spaces_st; [|exact HW2|apply ws_spaces; exact Hws|reflexivity].
   pose proof (W_app _ _ _ _ HW2) as HW3. cbn [app] in *.
   rewrite consume_byte_st by (try exact Hascii; exact HW3). cbn [bind CstLex.st s_pos]. reflexivity.
 Qed.
